@@ -322,6 +322,21 @@ def r4_lexical_scopes(ctx):
                             if any(norm(s) == f"{v}.close()" for s in tr.finalbody) and tr.lineno >= par.lineno:
                                 # nothing that may raise between the construction and the try
                                 ok = True
+                    if not ok:
+                        # `scope = <...UnitEnvironment(...)...>` immediately followed by `with scope:` (nothing can raise in between)
+                        st = _stmt_of(call)
+                        blk = None
+                        pp = getattr(st, "_parent", None)
+                        for field in ("body", "orelse", "finalbody"):
+                            b = getattr(pp, field, None)
+                            if isinstance(b, list) and st in b:
+                                blk = b
+                        if isinstance(st, ast.Assign) and len(st.targets) == 1 and isinstance(st.targets[0], ast.Name) and blk is not None:
+                            i = blk.index(st)
+                            nxt = blk[i + 1] if i + 1 < len(blk) else None
+                            if isinstance(nxt, ast.With) and any(isinstance(it.context_expr, ast.Name) and it.context_expr.id == st.targets[0].id for it in nxt.items) \
+                                    and isinstance(st.value, (ast.Call, ast.IfExp)):
+                                ok = True
                     ctx.check(ok, rel, q, f"scope is lexical: {norm(_stmt_of(call))[:80]}",
                               expected="with UnitEnvironment(...): ...  (or close() in a finally)")
     ctx.floor("UnitEnvironment constructions", n, 6)
